@@ -651,6 +651,16 @@ def check_version(p2p, case, f, cls):
         assert ref.build_version(R2) == emptied
         cls.append("nt:version-user-agent-emptied")
         _compare_version(f, attempt(p2p.parse_version_payload, emptied), R2, "user-agent-empty")
+    n = case.get("ua_len")
+    if n is not None:
+        # same payload with a user agent of another length (the builder has a fixed one; the field is a var_str of up
+        # to 256 bytes, so its length prefix crosses the 1-byte / 3-byte CompactSize boundary at 253)
+        ua = (b"/ua:" + bytes(48 + (i * 7 + n) % 75 for i in range(n)))[:n]
+        R3 = dict(R, user_agent=ua)
+        resized = ref.build_version(R3)
+        assert ref.parse_version(resized)["user_agent"] == ua
+        cls.append("nt:version-user-agent-len>=253" if n >= 253 else "nt:version-user-agent-len<253")
+        _compare_version(f, attempt(p2p.parse_version_payload, resized), R3, "user-agent-len>=253" if n >= 253 else "user-agent-resized")
 
 
 def _hash_list(v):
@@ -834,6 +844,9 @@ def codec_cases(draw, tier):
             "relay": draw(st.sampled_from([0, 1])),
             "time": t,
         }
+        n = draw(st.sampled_from([None, None, 1, 11, 75, 252, 253, 254, 255, 256]))
+        if n is not None:
+            case["ua_len"] = n
         if t < 2**50:
             mode = draw(st.sampled_from(["int", "float", "frac"]))
             if mode != "int":
@@ -927,7 +940,7 @@ def targets(tier):
             strategy=lambda tier: codec_cases(tier),
             budget={"quick": 5000, "thorough": 100000},
             required=[
-                "nt:version-relay-false", "version-relay-true", "nt:version-user-agent-emptied", "nt:getheaders-count>=253",
+                "nt:version-relay-false", "version-relay-true", "nt:version-user-agent-emptied", "nt:version-user-agent-len>=253", "nt:version-user-agent-len<253", "nt:getheaders-count>=253",
                 "nt:getheaders-count>=65536", "nt:getheaders-count-0", "nt:inv-count>=253", "nt:inv-all-six-types", "nt:addr-count>=253",
                 "nt:ping-nonce-boundary-or-8-byte", "codec-version", "codec-getheaders", "codec-inv", "codec-addr", "codec-ping",
             ],
